@@ -763,14 +763,21 @@ func (e *ConditionalExpr) Value(ctx *hcl.EvalContext) (cty.Value, hcl.Diagnostic
 	}
 
 	if resultType == cty.NilType {
+		detail := "The true and false result expressions must have consistent types."
+		if !trueResult.ContainsMarked() && !falseResult.ContainsMarked() {
+			// The description names object attributes, which for a value built
+			// from marked data can be derived from the marked content, so we
+			// describe the mismatch only when no marks are involved.
+			detail = fmt.Sprintf(
+				"%s %s.", detail,
+				describeConditionalTypeMismatch(trueResult.Type(), falseResult.Type()),
+			)
+		}
 		return cty.DynamicVal, hcl.Diagnostics{
 			{
-				Severity: hcl.DiagError,
-				Summary:  "Inconsistent conditional result types",
-				Detail: fmt.Sprintf(
-					"The true and false result expressions must have consistent types. %s.",
-					describeConditionalTypeMismatch(trueResult.Type(), falseResult.Type()),
-				),
+				Severity:    hcl.DiagError,
+				Summary:     "Inconsistent conditional result types",
+				Detail:      detail,
 				Subject:     hcl.RangeBetween(e.TrueResult.Range(), e.FalseResult.Range()).Ptr(),
 				Context:     &e.SrcRange,
 				Expression:  e,
